@@ -487,6 +487,44 @@ func checkSetProtocol(r *Reporter, p *Prog) {
 		} else {
 			r.Pass("set/replace", "ds.set.Replace", f.PosOf(clears[0]), "previous elements are snapshotted before Clear")
 		}
+		// exact diff: the returned set must not contain elements that are part of the new contents
+		var retVar types.Object
+		ast.Inspect(fd.Body, func(n ast.Node) bool {
+			if _, isLit := n.(*ast.FuncLit); isLit {
+				return false
+			}
+			if rs, ok := n.(*ast.ReturnStmt); ok && len(rs.Results) == 1 {
+				retVar = objOfIdent(info, rs.Results[0])
+			}
+			return true
+		})
+		excluded := false
+		ast.Inspect(fd.Body, func(n ast.Node) bool {
+			lit, ok := n.(*ast.FuncLit)
+			if !ok {
+				return true
+			}
+			lp := map[types.Object]bool{}
+			for _, fl := range lit.Type.Params.List {
+				for _, nm := range fl.Names {
+					lp[info.Defs[nm]] = true
+				}
+			}
+			ast.Inspect(lit.Body, func(m ast.Node) bool {
+				if cl, ok := m.(*ast.CallExpr); ok && len(cl.Args) == 1 && lp[objOfIdent(info, cl.Args[0])] {
+					if se, ok := ast.Unparen(cl.Fun).(*ast.SelectorExpr); ok && se.Sel.Name == "Delete" && retVar != nil && objOfIdent(info, se.X) == retVar {
+						excluded = true
+					}
+				}
+				return true
+			})
+			return false
+		})
+		if excluded {
+			r.Pass("set/exact-diff", "ds.set.Replace", p.posStr(fd.Pos()), "elements that are part of the new contents are taken out of the returned set: only removed elements are reported")
+		} else {
+			r.Fail("set/exact-diff", "ds.set.Replace", p.posStr(fd.Pos()), "Replace returns every previous element, including those that stay in the set: it must return exactly the elements whose membership changed")
+		}
 	}
 }
 
